@@ -20,8 +20,8 @@ impl Property for C04 {
     }
     fn cases(&self, tier: Tier) -> u32 {
         match tier {
-            Tier::Quick => 2500,
-            Tier::Thorough => 30000,
+            Tier::Quick => 60_000,
+            Tier::Thorough => 600_000,
         }
     }
     fn rule(&self) -> String {
